@@ -322,12 +322,40 @@ def extract(src_text: str, retry_text: str):
     # ---- get_send_stream_chan
     g = strip_comments(fn_body(src_text, "get_send_stream_chan"))
     gn = norm(strip_logging(g))
+    # form A: the body is one `tokio::select! { .. }` whose arms are the function's value;
+    # form B: `let x = tokio::select! { .. }; match x { Ok(..) => .., Err(..) => .. }` where the
+    #         ctrl-c / timeout arms `return` and the answering arm yields the call's result
     mg = re.fullmatch(r"tokio::select!\s*\{(.*)\}\s*", gn, re.S)
+    trailing_match = None
     if not mg:
-        raise Inconclusive("get_send_stream_chan: body is not a single tokio::select!")
+        mB = re.match(r"let (\w+) = tokio::select!\s*\{", gn)
+        if not mB:
+            raise Inconclusive("get_send_stream_chan: body is neither a single tokio::select! nor `let x = tokio::select!{..}; match x {..}`")
+        se = balanced(gn, mB.end() - 1)
+        rest = gn[se + 1:].strip()
+        if not rest.startswith(";"):
+            raise Inconclusive("get_send_stream_chan: `let x = tokio::select!{..}` not terminated")
+        rest = rest[1:].strip()
+        if not re.match(r"match " + mB.group(1) + r"\s*\{", rest) or balanced(rest, rest.index("{")) != len(rest) - 1:
+            raise Inconclusive("get_send_stream_chan: statements after the select! other than one `match` on its value")
+        trailing_match = (mB.group(1), rest)
+
+        class _M:  # same interface as the regex match of form A
+            def __init__(self, s):
+                self.s = s
+
+            def group(self, _):
+                return self.s
+        mg = _M(gn[mB.end():se])
     garms = []
     for pat, fut, ab in select_arms(mg.group(1)):
         b = norm(ab)
+        if trailing_match is not None:
+            # arms that leave the function: `return X;` / `return X` has the value X
+            b = re.sub(r"return (.*?);?$", r"\1", b).strip()
+            if re.fullmatch(r"\w+", pat or "") and b == pat and "new_stream_channel" in (fut or ""):
+                # the answering arm yields the result: its handling is the trailing match
+                b = trailing_match[1].replace("match " + trailing_match[0], "match " + pat, 1)
         parks = len(re.findall(r"failed_stream_request\.replace\(stream_command\)", b))
         if pat == "Ok(())" and fut == "tokio::signal::ctrl_c()":
             if not re.fullmatch(r"Err\(Error::Cancelled\)", b):
@@ -581,6 +609,38 @@ REPLAY = r'''
     }
 
     #[tokio::test]
+    async fn verif_c19_connected_parked_timeout_reparks() {
+        use futures_util::StreamExt;
+        let listener = tokio::net::TcpListener::bind("127.0.0.1:0").await.unwrap();
+        let addr = listener.local_addr().unwrap();
+        let server = tokio::spawn(async move {
+            let (s, _) = listener.accept().await.unwrap();
+            let mut ws = tokio_tungstenite::accept_async(s).await.unwrap();
+            // read, never answer
+            while let Some(m) = ws.next().await {
+                if m.is_err() {
+                    break;
+                }
+            }
+        });
+        let tcp = TcpStream::connect(addr).await.unwrap();
+        let (ws_stream, _) = tokio_tungstenite::client_async(format!("ws://{addr}/ws"), MaybeTlsStream::Plain(tcp)).await.unwrap();
+        let args = ClientArgs { keepalive: OptionalDuration::NONE, channel_timeout: OptionalDuration::from_secs(1), ..Default::default() };
+        let (_stx, mut srx) = mpsc::channel::<StreamCommand>(1);
+        let (_dtx, mut drx) = mpsc::channel::<Datagram>(1);
+        let map = Mutex::new(ClientIdMaps::new());
+        let (tx, mut rx) = oneshot::channel();
+        // the request was parked by the previous connection; this connection's attempt times out too
+        let mut failed = Some(StreamCommand { tx, host: Bytes::from_static(b"example.com"), port: 80 });
+        let r = time::timeout(Duration::from_secs(8), on_connected(&args, ws_stream, &mut srx, &mut failed, &mut drx, &map)).await;
+        server.abort();
+        let parked = failed.as_ref().is_some_and(|c| c.port == 80 && c.host.as_ref() == b"example.com");
+        let dropped = matches!(rx.try_recv(), Err(oneshot::error::TryRecvError::Closed));
+        assert!(matches!(r, Ok(Err(_))) && parked && !dropped,
+            "VERIF-C19 a parked stream request whose retry timed out: result {r:?}, parked again: {parked}, handler's channel dropped: {dropped}");
+    }
+
+    #[tokio::test]
     async fn verif_c19_connected_request_refused_parks() {
         use futures_util::{SinkExt, StreamExt};
         use tokio_tungstenite::tungstenite::Message;
@@ -748,7 +808,7 @@ def main():
                     scenario = "verif_c19_connected_request_refused_parks" if vals.get("how1") == 1 else "verif_c19_connected_request_timeout_parks"
                 else:
                     # both start with a parked request, i.e. go through the prelude
-                    scenario = "verif_c19_connected_request_refused_parks" if vals.get("how2") == 1 else "verif_c19_connected_parked_served_first"
+                    scenario = {1: "verif_c19_connected_request_refused_parks", 2: "verif_c19_connected_parked_timeout_reparks"}.get(vals.get("how2"), "verif_c19_connected_parked_served_first")
             if scenario not in replayed:
                 scratch.mkdir(parents=True, exist_ok=True)
                 replayed[scenario] = native_replay(scenario, scratch)
